@@ -1,4 +1,4 @@
-import BeyondVerif.Lemmas.HeapSet
+import BeyondVerif.Lemmas.HeapOut
 /-!
 # C15 — state vectors have value semantics and change atomically
 
@@ -124,14 +124,109 @@ theorem covSetFrame_error_atomic (h h' : Heap) (c : Nat) (fr : Fr) (env : Env) (
         · simp at hr; exact hr.1.symm
   · simp at hr; exact hr.1.symm
 
-/-- where a failing `sv.frame = name` can come from: an unknown name (nothing touched), the state-vector
-part (see `setFrameBasic_error_atomic`), or — the state vector having been changed successfully — the
-covariance that was to follow it (which is then left exactly as it was, `covSetFrame_error_atomic`) -/
+theorem write_self (h : Heap) (a : Nat) (c : Cell) (hc : h[a]? = some c) : write h a c = h := by
+  apply List.ext_getElem?
+  intro i
+  by_cases hi : i = a
+  · subst hi
+    rw [write_same _ _ _ (List.getElem?_eq_some_iff.mp hc).1, hc]
+  · rw [write_other _ _ _ _ hi]
+
+theorem insert_same (k : String) (v : Ref) (items : Items) (hl : lookup k items = some v) : insert k v items = items := by
+  induction items with
+  | nil => simp [lookup] at hl
+  | cons kv rest ih =>
+    obtain ⟨k', v'⟩ := kv
+    by_cases hk : k' = k
+    · subst hk; simp [lookup] at hl; subst hl; simp [Heap.insert]
+    · simp [lookup, hk] at hl; simp [Heap.insert, hk, ih hl]
+
+theorem insert_insert (k : String) (v w : Ref) (items : Items) : insert k v (insert k w items) = insert k v items := by
+  induction items with
+  | nil => simp [Heap.insert]
+  | cons kv rest ih =>
+    obtain ⟨k', v'⟩ := kv
+    by_cases hk : k' = k
+    · subst hk; simp [Heap.insert]
+    · simp [Heap.insert, hk, ih]
+
+theorem getSV_buf_ne_data (h : Heap) (a : Nat) (s : SV) (hs : getSV h a = some s) : s.buf ≠ s.data := by
+  obtain ⟨_, hb, hd⟩ := getSV_cells h a s hs
+  intro he
+  rw [he, hd] at hb
+  simp at hb
+
+theorem getSV_frame_lookup (h : Heap) (a : Nat) (s : SV) (hs : getSV h a = some s) : lookup "frame" s.items = some (.frame s.frame) := by
+  unfold getSV at hs
+  split at hs
+  · split at hs
+    · split at hs
+      · rename_i f fr hf hfr
+        simp at hs; subst hs
+        simp only
+        unfold frameOf at hfr
+        split at hfr
+        · rename_i f' hl; simp at hfr; subst hfr; exact hl
+        · simp at hfr
+      · simp at hs
+    · simp at hs
+  · simp at hs
+
+/- History: until /repo commit 45ca5d0 the frame setter had no `except` clause: when the covariance that had to follow could not
+   be converted the assignment failed with the state vector already moved (open finding C15-frame-change-not-atomic-with-cov,
+   counter-witness `frame_change_fails_after_state_moved`, theorem `setFrame_error_atomic_partial`). -/
+theorem restore_writes (h : Heap) (s : SV) (X : Cell) (D : Items) (hbuf : h[s.buf]? = some (.buf s.val))
+    (hdat : h[s.data]? = some (.dict s.items)) (hne : s.buf ≠ s.data) (hD : Heap.insert "frame" (.frame s.frame) D = s.items) :
+    restoreSV (write (write h s.buf X) s.data (.dict D)) s = h := by
+  have hblt : s.buf < h.length := (List.getElem?_eq_some_iff.mp hbuf).1
+  have hdlt : s.data < h.length := (List.getElem?_eq_some_iff.mp hdat).1
+  unfold restoreSV
+  have h1 : (write (write (write h s.buf X) s.data (.dict D)) s.buf (.buf s.val))[s.data]? = some (.dict D) := by
+    rw [write_other _ _ _ _ hne.symm, write_same _ _ _ (by simp [write]; exact hdlt)]
+  simp only [h1, hD]
+  apply List.ext_getElem?
+  intro i
+  by_cases hid : i = s.data
+  · subst hid
+    rw [write_same _ _ _ (by simp [write]; exact hdlt), hdat]
+  · rw [write_other _ _ _ _ hid]
+    by_cases hib : i = s.buf
+    · subst hib
+      rw [write_same _ _ _ (by simp [write]; exact hblt), hbuf]
+    · rw [write_other _ _ _ _ hib, write_other _ _ _ _ hid, write_other _ _ _ _ hib]
+
+/-- the `except` clause of the frame setter puts back exactly what the state-vector part changed: after a successful
+state-vector part, restoring gives the heap the assignment started from, bit for bit -/
+theorem restore_after_basic (h h2 : Heap) (a : Nat) (fr : Fr) (env : Env) (s : SV) (hs : getSV h a = some s)
+    (hb : setFrameBasic h a fr env = (h2, .ok ())) : restoreSV h2 s = h := by
+  obtain ⟨_, hbuf, hdat⟩ := getSV_cells h a s hs
+  have hne := getSV_buf_ne_data h a s hs
+  have hfl := getSV_frame_lookup h a s hs
+  unfold setFrameBasic at hb
+  rw [hs] at hb
+  simp only at hb
+  split at hb
+  · -- nothing to do for the state vector
+    simp at hb; subst hb
+    have := restore_writes h s (.buf s.val) s.items hbuf hdat hne (insert_same _ _ _ hfl)
+    rw [write_self h s.buf _ hbuf, write_self h s.data _ hdat] at this
+    exact this
+  · split at hb
+    · split at hb
+      · simp at hb
+      · simp at hb
+        subst hb
+        exact restore_writes h s _ _ hbuf hdat hne (by rw [insert_insert, insert_same _ _ _ hfl])
+    · simp at hb
+    · simp at hb
+    · simp at hb
+
+/-- where a failing `sv.frame = name` can come from: an unknown name (nothing touched), the covariance that was to follow the
+(successfully changed) state vector — the state vector is then put back and the heap is the one before the call —, or the
+state-vector part itself (see `setFrameBasic_error_atomic`) -/
 theorem setFrame_error_cases (h h' : Heap) (a : Nat) (name : String) (env : Env) (e : Err) (s : SV)
     (hs : getSV h a = some s) (hr : setFrame h a name env = (h', .error e)) :
-    (h' = h) ∨
-    (∃ fr, resolveFrame name = some fr ∧ setFrameBasic h a fr env = (h', .error e)) ∨
-    (∃ fr c, resolveFrame name = some fr ∧ setFrameBasic h a fr env = (h', .ok ()) ∧ lookup "cov" s.items = some (.addr c)) := by
+    (h' = h) ∨ (∃ fr, resolveFrame name = some fr ∧ setFrameBasic h a fr env = (h', .error e)) := by
   unfold setFrame at hr
   split at hr
   · left; simp at hr; exact hr.1.symm
@@ -141,20 +236,27 @@ theorem setFrame_error_cases (h h' : Heap) (a : Nat) (name : String) (env : Env)
     simp only at hr
     split at hr
     · rename_i h1 e1 hb
-      right; left
+      right
       simp at hr
       exact ⟨fr, hfr, by rw [hb, hr.1, hr.2]⟩
     · rename_i h1 hb
-      right; right
+      left
       split at hr
       · rename_i c hc
-        refine ⟨fr, c, hfr, ?_, hc⟩
         split at hr
         · split at hr
-          · have := covSetFrame_error_atomic _ _ _ _ _ _ hr
-            rw [hb, this]
+          · split at hr
+            · rename_i h3 e3 he3
+              have h31 : h3 = h1 := covSetFrame_error_atomic _ _ _ _ _ _ he3
+              subst h31
+              simp at hr
+              rw [← hr.1]
+              exact restore_after_basic h h3 a fr env s hs hb
+            · simp at hr
           · simp at hr
-        · simp at hr; rw [hb, hr.1]
+        · simp at hr
+          rw [← hr.1]
+          exact restore_after_basic h h1 a fr env s hs hb
       · simp at hr
 
 /-! ## copies -/
@@ -603,60 +705,35 @@ theorem setFrameBasic_error_keeps_labels (h h' : Heap) (a : Nat) (fr : Fr) (env 
     · simp at hr; rw [← hr.1]; exact ⟨_, key _, rfl, rfl, rfl, Or.inr rfl⟩
     · simp at hr; rw [← hr.1]; exact ⟨s, hs, rfl, rfl, rfl, Or.inl rfl⟩
 
-/- FULL statement (clause "a form or frame change that fails leaves the object in its previous, consistent form/frame/values"):
-     setFrame h a name env = (h', .error e) → getSV h a = some s → ∃ s', getSV h' a = some s' ∧ s'.form = s.form ∧ s'.frame = s.frame ∧ phys s'.val = phys s.val
-   It is FALSE of the code: when the state-vector part succeeds and the covariance that has to follow raises, the state has
-   moved (counter-witness `C15W.frame_change_fails_after_state_moved`, open finding C15-frame-change-not-atomic-with-cov,
-   proposed_fixes/C15-frame-setter-atomic.diff). What holds: -/
-/-- a failing `sv.frame = name` on a state whose covariance does not have to follow (none, or expressed in another frame
-than the state): form, frame and `_data` are those before the call and the values are untouched or the round trip
-form → cartesian → form of what was held — for every environment and every form -/
-theorem setFrame_error_atomic_partial (h h' : Heap) (a : Nat) (name : String) (env : Env) (e : Err) (s : SV)
-    (hs : getSV h a = some s) (hne : s.buf ≠ s.data)
-    (hcov : ∀ c, lookup "cov" s.items = some (.addr c) → ∃ b cfr orb ofr, h[c]? = some (.cov b cfr orb ofr) ∧ cfr ≠ s.frame)
-    (hcb : ∀ c, lookup "cov" s.items = some (.addr c) → c ≠ s.buf ∧ c ≠ s.data)
-    (hr : setFrame h a name env = (h', .error e)) :
+/- History: until /repo commit 45ca5d0 only `setFrame_error_atomic_partial` held (states whose covariance does not have to follow);
+   the full statement was false: counter-witness `C15W.frame_change_fails_after_state_moved`, now a regression witness. -/
+/-- clause "a form or frame change that fails leaves the object in its previous, consistent form/frame/values", in full: whatever
+makes `sv.frame = name` raise — an unknown name, the Hill frame, a transformation the environment makes fail, the covariance
+that has to follow and cannot be converted — and whatever form the state is held in: the object reads back with the form, frame
+and `_data` entries it had and values denoting the same physical state (untouched, or the round trip form → cartesian → form) -/
+theorem setFrame_error_atomic (h h' : Heap) (a : Nat) (name : String) (env : Env) (e : Err) (s : SV)
+    (hs : getSV h a = some s) (hr : setFrame h a name env = (h', .error e)) :
     ∃ s', getSV h' a = some s' ∧ s'.form = s.form ∧ s'.frame = s.frame ∧ s'.items = s.items ∧ phys s'.val = phys s.val := by
-  have conv : ∀ s' : SV, (s'.val = s.val ∨ s'.val = mkConv "cartesian" s.form (mkConv s.form "cartesian" s.val)) → phys s'.val = phys s.val := by
-    intro s' hv
+  rcases setFrame_error_cases h h' a name env e s hs hr with h1 | ⟨fr, _, hb⟩
+  · subst h1; exact ⟨s, hs, rfl, rfl, rfl, rfl⟩
+  · obtain ⟨s', hs', hf, hfr, hi, hv⟩ := setFrameBasic_error_keeps_labels h h' a fr env e s hs (getSV_buf_ne_data h a s hs) hb
+    refine ⟨s', hs', hf, hfr, hi, ?_⟩
     rcases hv with hv | hv
     · rw [hv]
     · rw [hv, phys_mkConv, phys_mkConv]
-  rcases setFrame_error_cases h h' a name env e s hs hr with h1 | ⟨fr, _, hb⟩ | ⟨fr, c, hfr, hb, hc⟩
-  · subst h1; exact ⟨s, hs, rfl, rfl, rfl, rfl⟩
-  · obtain ⟨s', hs', hf, hfr, hi, hv⟩ := setFrameBasic_error_keeps_labels h h' a fr env e s hs hne hb
-    exact ⟨s', hs', hf, hfr, hi, conv s' hv⟩
-  · -- the state-vector part succeeded: then the covariance had to follow, which the hypothesis excludes
-    exfalso
-    unfold setFrame at hr
-    rw [hfr] at hr
-    unfold setFrameTo at hr
-    rw [hs] at hr
-    simp only [hb, hc] at hr
-    -- the heap after the state-vector part still holds the covariance cell at `c`
-    obtain ⟨hcell, hbuf, hdat⟩ := getSV_cells h a s hs
-    have hbl : s.buf < h.length := (List.getElem?_eq_some_iff.mp hbuf).1
-    have hcc : h'[c]? = h[c]? := by
-      unfold setFrameBasic at hb
-      rw [hs] at hb
-      simp only at hb
-      split at hb
-      · simp at hb; rw [← hb]
-      · split at hb
-        · split at hb
-          · simp at hb
-          · simp at hb
-            rw [← hb, write_other _ _ _ _ (hcb c hc).2, write_other _ _ _ _ (hcb c hc).1]
-        · simp at hb
-        · simp at hb
-        · simp at hb
-    obtain ⟨b, cfr, orb, ofr, hcv, hne'⟩ := hcov c hc
-    rw [hcc, hcv] at hr
-    simp [hne'] at hr
 
-example : ∃ s, getSV C15Ex.h0 6 = some s ∧ s.buf ≠ s.data := ⟨_, rfl, by decide⟩
-/-- the hypotheses of `setFrame_error_atomic_partial` are satisfiable (a state without covariance) and its conclusion is not vacuous
-(the assignment does fail) -/
+/-- … and every cell other than the coordinate buffer of the object is bit-identical: metadata, maneuvers, the covariance and its buffer -/
+theorem setFrame_error_frame (h h' : Heap) (a : Nat) (name : String) (env : Env) (e : Err) (s : SV)
+    (hs : getSV h a = some s) (hr : setFrame h a name env = (h', .error e)) :
+    ∀ x, x ≠ s.buf → h'[x]? = h[x]? := by
+  intro x hx
+  rcases setFrame_error_cases h h' a name env e s hs hr with h1 | ⟨fr, _, hb⟩
+  · rw [h1]
+  · rcases setFrameBasic_error_atomic h h' a fr env e s hs hb with h1 | ⟨v', h1, _⟩
+    · rw [h1]
+    · rw [h1, write_other _ _ _ _ hx]
+
+/-- the hypotheses of `setFrame_error_atomic` are satisfiable and its conclusion is not vacuous (the assignment does fail) -/
 example : (∃ s, getSV C15Ex.h0 6 = some s ∧ lookup "cov" s.items = none) ∧ (setFrame C15Ex.h0 6 "Hill").2 = .error .value := by
   refine ⟨⟨_, rfl, by decide⟩, by decide +kernel⟩
 
@@ -857,6 +934,57 @@ theorem pickle_then_mutations_invisible (h h1 : Heap) (a n : Nat) (hr : pickle h
     obtain ⟨m, _, rfl⟩ := List.mem_map.mp hp
     exact hn) h1 sep).pres
 
+/-! ## histories, the mirror direction: any sequence of in-place operations on the ORIGINAL (or any object that is not the copy's) -/
+
+theorem mut_out {lo hi : Nat} {h1 h : Heap} (o : Out lo hi h1 h) {a : Nat} (ha : Off lo hi a) (m : Mut) : Out lo hi h1 (m.run h a) := by
+  cases m with
+  | setForm name => exact setForm_out o ha name
+  | setFrame name env => exact setFrame_out o ha name env
+  | setAttr name x => exact setAttr_out o ha name x
+  | setIdx i x => exact setIdx_out o ha i x
+  | covFrame name => exact covFrame_out o ha name
+  | readMan => exact readMan_out o ha
+  | addMan t => exact addMan_out o ha t
+  | metaAppend key x => exact metaAppend_out o ha key x
+  | metaSetItem key x => exact metaSetItem_out o ha key x
+  | nestedAppend x => exact nestedAppend_out o ha x
+  | arrSet => exact arrSet_out o ha
+
+theorem muts_out {lo hi : Nat} {h1 : Heap} (ms : List (Nat × Mut)) (hoff : ∀ p ∈ ms, Off lo hi p.1) :
+    ∀ h, Out lo hi h1 h → Out lo hi h1 (runMuts h ms) := by
+  induction ms with
+  | nil => intro h o; exact o
+  | cons p rest ih =>
+    intro h o
+    obtain ⟨n, m⟩ := p
+    exact ih (fun q hq => hoff q (List.mem_cons_of_mem _ hq)) _ (mut_out o (hoff (n, m) List.mem_cons_self) m)
+
+/-- right after `c = sv.copy()` no cell outside the ones the copy created refers to one of them -/
+theorem copy_region_out (h h1 : Heap) (a n : Nat) (wf : WfM h) (hr : copySV h a = (h1, .ok n)) :
+    Out h.length h1.length h1 h1 := by
+  have p : Pres h h1 := by have := copy_receiver_unchanged h a; rw [hr] at this; exact this
+  refine ⟨Nat.le_refl _, fun _ _ _ => rfl, fun x c hx hc y hy => ?_⟩
+  rcases hx with hx | hx
+  · rw [p.2 x hx] at hc
+    exact Or.inl (wf.closed x c hc y hy)
+  · have := (List.getElem?_eq_some_iff.mp hc).1
+    omega
+
+/-- clause "changing coordinates, metadata, maneuvers or covariance of one never shows in the other", over histories, the other way
+round: after `c = sv.copy()`, ANY sequence of in-place operations (each succeeding or raising) on the original — or on any object
+that existed before or is created later — leaves every cell the copy consists of (its buffer, `_data`, containers at any depth,
+maneuver list, covariance, the covariance's buffer and private state) bit-identical, and no cell outside them ever comes to refer
+to one of them. (The maneuver OBJECTS are old cells shared with the original: open finding, not covered.) -/
+theorem original_mutations_invisible (h h1 : Heap) (a n : Nat) (wf : WfM h) (hr : copySV h a = (h1, .ok n))
+    (ms : List (Nat × Mut)) (hoff : ∀ p ∈ ms, p.1 < h.length ∨ h1.length ≤ p.1) :
+    ∀ x, h.length ≤ x → x < h1.length → (runMuts h1 ms)[x]? = h1[x]? :=
+  (muts_out ms hoff h1 (copy_region_out h h1 a n wf hr)).same
+
+example : (copySV C15Ex.h0 6).2 = .ok 12 ∧
+    ((runMuts (copySV C15Ex.h0 6).1 [(6, .addMan 5), (6, .setFrame "Hill" noEnv), (6, .metaAppend "nested" 1), (6, .setForm "keplerian")]).drop 7).take 6
+      = (copySV C15Ex.h0 6).1.drop 7 := by
+  decide +kernel
+
 /-! ## constructors given an existing object, getters that create -/
 
 theorem dateTok_noaddr (items : Items) (x : Nat) : dateTok items ≠ .addr x := by
@@ -1008,5 +1136,52 @@ theorem getMans_existing (h : Heap) (a l : Nat) (s : SV) (hs : getSV h a = some 
   unfold getMans
   rw [hs]
   simp only [hl]
+
+/-! ## `copy.deepcopy` -/
+
+/- History: until /repo commit fd4f2bf `copy.deepcopy(sv)` fell through to `ndarray.__deepcopy__`: new buffer, SHALLOW copy of `_data`
+   (open finding C15-deepcopy-shares-data, witness `deepcopy_shares_data`, now a regression witness). -/
+/-- `copy.deepcopy(sv)`: the receiver and everything reachable from it is unchanged, the result is a new cell, and every address stored
+in any cell created on the way is new or a maneuver object (of an intermediate maneuver list that the result no longer refers to:
+see `C15W.deepcopy_shares_nothing`) -/
+theorem stdDeepcopy_separate (h h' : Heap) (a n : Nat) (wf : WfM h) (hr : stdDeepcopy h a = (h', .ok n)) :
+    Sep h h' ∧ h.length ≤ n := by
+  unfold stdDeepcopy at hr
+  split at hr
+  · simp at hr
+  · rename_i h1 n1 he
+    obtain ⟨sep, hn⟩ := copy_separate h h1 a n1 wf he
+    have inv0 : DeepInv (Good h) h { h := h1 } := ⟨sep.pres, sep.closed, by simp⟩
+    have d1 := deepMansOf_sep { h := h1 } inv0 ((mansOfSV h1 n1).map (·.2))
+    have d2 := deepMansOf_sep _ d1.1 (((covOrb h1 n1).bind (mansOfSV h1)).map (·.2))
+    simp only at hr
+    split at hr
+    · rename_i r1 r2 hr1 hr2
+      have s2 : Sep h (deepMansOf (deepMansOf { h := h1 } ((mansOfSV h1 n1).map (·.2))).1 (((covOrb h1 n1).bind (mansOfSV h1)).map (·.2))).1.h :=
+        ⟨d2.1.pres, d2.1.closed⟩
+      have s3 := setMansOpt_sep s2 (some n1) (fun x hx => by injection hx with hx; subst hx; exact Good.new hn) r1
+        (fun r' y h1' h2' => d1.2 r' y (by rw [hr1, h1']) h2')
+      -- the private state of the copy's covariance is stored in a new covariance cell, itself stored in the new dict
+      have horb : ∀ x, covOrb h1 n1 = some x → Good h x := by
+        intro x hx
+        unfold covOrb at hx
+        split at hx
+        · rename_i sn hsn
+          split at hx
+          · rename_i c hc
+            split at hx
+            · rename_i b cfr orb ofr hcell
+              simp at hx; subst hx
+              have hcn := newEntry sep hn hsn hc hcell (by intro t; simp)
+              exact sep.closed c _ hcn hcell orb (by simp [refsOf])
+            · simp at hx
+          · simp at hx
+        · simp at hx
+      have s4 := setMansOpt_sep s3 (covOrb h1 n1) horb r2 (fun r' y h1' h2' => d2.2 r' y (by rw [hr2, h1']) h2')
+      have hh := (Prod.mk.inj hr).1
+      have hn' := Except.ok.inj (Prod.mk.inj hr).2
+      rw [← hh, ← hn']
+      exact ⟨s4, hn⟩
+    · simp at hr
 
 end BeyondVerif.C15
